@@ -52,7 +52,14 @@ type Exec struct {
 	finite    map[int][]int64
 	atDeclared map[string]bool
 	siteStack []token.Pos
+	boundOf   map[int]*Term
+	sumDefs   map[string]*sumDef
 	sumVars   map[string]*Term
+	qfacts    []*qfact
+	qseen     map[[2]int]bool
+	interest  []*Term
+	interestSeen map[int]bool
+	ninst     int
 }
 
 type InputSym struct {
@@ -96,6 +103,8 @@ func (x *Exec) oblige(st *State, kind string, goal *Term, pos token.Pos, note st
 		return
 	}
 	name := x.oblName(kind)
+	orig := goal
+	goal = x.skolemize(st, goal, 0)
 	posStr := posOf(x.prog.fset, pos)
 	// inlined callees: report the chain of call sites, outermost first
 	if len(x.siteStack) > 0 {
@@ -117,7 +126,13 @@ func (x *Exec) oblige(st *State, kind string, goal *Term, pos token.Pos, note st
 		x.obls = append(x.obls, &Obligation{Name: name, Kind: kind, Job: x.job.Name, NFact: len(x.ctx.facts), PC: st.pc, Goal: goal,
 			Pos: posStr, Note: note, Status: "proved", Solver: "trivial"})
 	}
-	x.ctx.assume(st, goal)
+	x.assumeFact(st, orig)
+}
+
+// assumeFact assumes a contract-level fact and registers its quantified parts for instantiation.
+func (x *Exec) assumeFact(st *State, t *Term) {
+	x.ctx.assume(st, t)
+	x.registerFacts(st, t, st.pc, 0)
 }
 
 // ---------- typing assumptions ----------
@@ -128,6 +143,12 @@ func (x *Exec) assumeType(st *State, v *Term, t types.Type) {
 
 // assumeTypeB: typing facts of v where every reference inside v is known to be below `bound`.
 func (x *Exec) assumeTypeB(st *State, v *Term, t types.Type, bound *Term) {
+	if x.boundOf == nil {
+		x.boundOf = map[int]*Term{}
+	}
+	if _, ok := x.boundOf[v.id]; !ok {
+		x.boundOf[v.id] = bound
+	}
 	key := [2]int{v.id, bound.id}
 	if x.typed[key] {
 		return
@@ -138,9 +159,17 @@ func (x *Exec) assumeTypeB(st *State, v *Term, t types.Type, bound *Term) {
 	}
 	if _, isPtr := t.Underlying().(*types.Pointer); isPtr && !isAllocTerm(v) {
 		if inv := x.typeInv(st, &Val{T: v, Typ: t}); inv != True {
-			x.ctx.assume(st, Implies(Neq(v, IntLit(0)), inv))
+			x.assumeFact(st, Implies(Neq(v, IntLit(0)), inv))
 		}
 	}
+}
+
+// bnd returns the allocation bound known for the references inside v (the program point that supplied v).
+func (x *Exec) bnd(st *State, v *Term) *Term {
+	if b, ok := x.boundOf[v.id]; ok {
+		return b
+	}
+	return st.alloc
 }
 
 // typeInv evaluates the declared invariants of v's type (pointer to struct, or struct value) in state st.
@@ -265,6 +294,12 @@ func (x *Exec) typeFact(st *State, v *Term, t types.Type, depth int) *Term {
 			for _, it := range impls {
 				if _, isPtr := it.Underlying().(*types.Pointer); isPtr {
 					cs = append(cs, Implies(Eq(tag, IntLit(int64(TE.TagOf(it)))), And(Gt(ref, IntLit(0)), Lt(ref, st.alloc))))
+				} else if _, isStruct := it.Underlying().(*types.Struct); isStruct && depth < 2 {
+					// a boxed struct value: the references inside it are as old as the interface value itself
+					inner := x.typeFact(st, x.unbox(ref, it), it, depth+2)
+					if inner != True {
+						cs = append(cs, Implies(Eq(tag, IntLit(int64(TE.TagOf(it)))), inner))
+					}
 				}
 			}
 		}
@@ -317,7 +352,7 @@ func (x *Exec) writeField(st *State, structT types.Type, i int, ref, val *Term) 
 	st0 := structT.Underlying().(*types.Struct)
 	ft := st0.Field(i).Type()
 	x.noteWrite(st, fieldMapName(structT, i), ref)
-	x.ctx.hwrite(st, fieldMapName(structT, i), TE.SortOf(ft), ref, val)
+	x.ctx.hwriteB(st, fieldMapName(structT, i), TE.SortOf(ft), ref, val, x.bnd(st, val))
 }
 
 func (x *Exec) loadObj(st *State, structT types.Type, ref *Term) *Term {
@@ -332,7 +367,13 @@ func (x *Exec) loadObj(st *State, structT types.Type, ref *Term) *Term {
 func (x *Exec) storeObj(st *State, structT types.Type, ref, val *Term) {
 	st0 := structT.Underlying().(*types.Struct)
 	for i := 0; i < st0.NumFields(); i++ {
-		x.writeField(st, structT, i, ref, TE.Field(structT, i, val))
+		fv := TE.Field(structT, i, val)
+		if b, ok := x.boundOf[val.id]; ok {
+			if _, has := x.boundOf[fv.id]; !has {
+				x.boundOf[fv.id] = b
+			}
+		}
+		x.writeField(st, structT, i, ref, fv)
 	}
 }
 
@@ -347,6 +388,9 @@ func (x *Exec) readElem(st *State, elemT types.Type, sl, idx *Term) *Term {
 	if !hasFreeBound(idx) && !hasFreeBound(sl) {
 		node := x.ctx.heapNode(st, arrMapName(elemT), arraySort(SInt, TE.SortOf(elemT)))
 		x.assumeTypeB(st, v, elemT, node.readBound(slRef(sl), x.job.alloc0))
+	}
+	if !hasFreeBound(idx) {
+		x.addInterest(st, idx)
 	}
 	if !hasFreeBound(idx) && !v.isConst() {
 		// ground instance of the at-function axiom: gives quantified contract clauses a term to match
@@ -789,7 +833,7 @@ func (x *Exec) enterLoop(fr *Frame, lp *loop, st *State) {
 		x.ctx.assume(st, t)
 	}
 	for _, v := range x.evalClausesAt(fr, st, x.loopClauses(fr, lp, "invariant"), nil, "invariant", lp.header) {
-		x.ctx.assume(st, v.t)
+		x.assumeFact(st, v.t)
 	}
 	rt := &loopRt{st: st.clone()}
 	for _, v := range x.evalClausesAt(fr, st, x.loopClauses(fr, lp, "decreases"), nil, "decreases", lp.header) {
@@ -1055,7 +1099,7 @@ func (x *Exec) step(fr *Frame, st *State, ins ssa.Instruction) {
 	case *ssa.Field:
 		base := x.get(fr, in.X)
 		fr.env[in] = &Val{T: TE.Field(base.Typ, in.Field, base.T), Typ: in.Type()}
-		x.assumeType(st, fr.env[in].T, in.Type())
+		x.assumeTypeB(st, fr.env[in].T, in.Type(), x.bnd(st, base.T))
 	case *ssa.IndexAddr:
 		fr.env[in] = x.indexAddr(fr, st, in)
 	case *ssa.Index:
@@ -1450,9 +1494,9 @@ func (x *Exec) unbox(ref *Term, t types.Type) *Term {
 func (x *Exec) ifaceAs(st *State, iv *Term, ct types.Type) *Val {
 	if _, isPtr := ct.Underlying().(*types.Pointer); isPtr {
 		r := &Val{T: ifRef(iv), Typ: ct}
-		x.ctx.assume(st, Implies(Eq(ifTag(iv), IntLit(int64(TE.TagOf(ct)))), And(Gt(ifRef(iv), IntLit(0)), Lt(ifRef(iv), st.alloc))))
+		x.ctx.assume(st, Implies(Eq(ifTag(iv), IntLit(int64(TE.TagOf(ct)))), And(Gt(ifRef(iv), IntLit(0)), Lt(ifRef(iv), x.bnd(st, iv)))))
 		if inv := x.typeInv(st, r); inv != True {
-			x.ctx.assume(st, Implies(Eq(ifTag(iv), IntLit(int64(TE.TagOf(ct)))), inv))
+			x.assumeFact(st, Implies(Eq(ifTag(iv), IntLit(int64(TE.TagOf(ct)))), inv))
 		}
 		return r
 	}
@@ -1460,9 +1504,9 @@ func (x *Exec) ifaceAs(st *State, iv *Term, ct types.Type) *Val {
 		return &Val{T: ifRef(iv), Typ: ct}
 	}
 	v := x.unbox(ifRef(iv), ct)
-	x.assumeType(st, v, ct)
+	x.assumeTypeB(st, v, ct, x.bnd(st, iv))
 	if inv := x.typeInv(st, &Val{T: v, Typ: ct}); inv != True {
-		x.ctx.assume(st, Implies(Eq(ifTag(iv), IntLit(int64(TE.TagOf(ct)))), inv))
+		x.assumeFact(st, Implies(Eq(ifTag(iv), IntLit(int64(TE.TagOf(ct)))), inv))
 	}
 	return &Val{T: v, Typ: ct}
 }
@@ -1633,15 +1677,16 @@ func (x *Exec) divFacts(st *State, a, b *Term) {
 
 // sumVar returns the canonical bound variable for a summation index name (one per name and job), so that
 // re-evaluating the same sum expression yields the identical body term.
-func (x *Exec) sumVar(name string) *Term {
+func (x *Exec) sumVar(name string, sort *Sort) *Term {
 	if x.sumVars == nil {
 		x.sumVars = map[string]*Term{}
 	}
-	if v, ok := x.sumVars[name]; ok {
+	key := name + ":" + sort.Name
+	if v, ok := x.sumVars[key]; ok {
 		return v
 	}
-	v := BoundVar("sum."+name, SInt)
-	x.sumVars[name] = v
+	v := BoundVar("sum."+name, sort)
+	x.sumVars[key] = v
 	return v
 }
 
@@ -1666,6 +1711,10 @@ func (x *Exec) sumTerm(st *State, bv, body, lo, hi *Term) *Term {
 	}
 	collect(body)
 	name := fmt.Sprintf("sum#%d", body.id)
+	if x.sumDefs == nil {
+		x.sumDefs = map[string]*sumDef{}
+	}
+	x.sumDefs[name] = &sumDef{bv: bv, body: body, outer: outer}
 	args := append(append([]*Term{}, outer...), lo, hi)
 	var sorts []*Sort
 	for _, a := range args {
@@ -1698,7 +1747,41 @@ func (x *Exec) sumTerm(st *State, bv, body, lo, hi *Term) *Term {
 			Implies(Lt(l, h), Eq(mkApp(l, h), Add(mkApp(l, Sub(h, IntLit(1))), last)))),
 			[]*Term{mkApp(l, h)}))
 	}
-	return App(name, SInt, args...)
+	res := App(name, SInt, args...)
+	x.unfoldSum(st, res)
+	return res
+}
+
+type sumDef struct {
+	bv    *Term
+	body  *Term
+	outer []*Term
+}
+
+// unfoldSum adds the one-step unfolding of a ground sum application (eager instance of the defining axioms).
+func (x *Exec) unfoldSum(st *State, app *Term) {
+	def, ok := x.sumDefs[app.op]
+	if !ok || hasFreeBound(app) {
+		return
+	}
+	key := [2]int{app.id, -21}
+	if x.qseen[key] {
+		return
+	}
+	x.qseen[key] = true
+	n := len(def.outer)
+	actuals := app.args[:n]
+	lo, hi := app.args[n], app.args[n+1]
+	sub := map[int]*Term{def.bv.id: Sub(hi, IntLit(1))}
+	for i, o := range def.outer {
+		sub[o.id] = actuals[i]
+	}
+	last := substTerm(def.body, sub)
+	prev := App(app.op, SInt, append(append([]*Term{}, actuals...), lo, Sub(hi, IntLit(1)))...)
+	x.ctx.facts = append(x.ctx.facts, And(
+		Implies(Le(hi, lo), Eq(app, IntLit(0))),
+		Implies(Lt(lo, hi), Eq(app, Add(prev, last)))))
+	x.linkAtTerms(last)
 }
 
 // substTerm replaces bound variables (by id) in t.
